@@ -60,7 +60,7 @@ var c16LineFaults = map[string]string{
 	"flags-in-include":                   "##!> include withflags",
 }
 
-var c16TreeFaults = []string{"rule-id-absent", "chain-offset-absent", "rules-file-absent", "two-rules-files"}
+var c16TreeFaults = []string{"rule-id-absent", "chain-offset-absent", "rules-file-absent", "two-rules-files", "operator-not-rx"}
 var c16ArgFaults = []string{"malformed-rule-id", "target-file-absent"}
 
 func c16Cells(tier string) []string {
@@ -343,6 +343,22 @@ func genC16(t *rapid.T, tier string) (*World, any) {
 		}
 		p.Argv = argv(victim)
 		p.TgtLine = -1
+	case class == "operator-not-rx":
+		// the addressed rule / chain link exists but carries another operator: there is no regular expression to write or compare
+		if !strings.Contains(cmd, "all") {
+			victim = pick(t, targets, "victim4")
+		}
+		where := map[string][2]int{"942100-chain1": {0, 1}, "942100": {0, 0}, "942110": {1, 0}, "942120": {2, 0}}[victim]
+		rf2 := &RuleFile{Path: rulesPath}
+		for _, r := range rf.Rules {
+			rf2.Rules = append(rf2.Rules, RuleSpec{ID: r.ID, Ops: append([]string{}, r.Ops...), Regex: append([]string{}, r.Regex...)})
+		}
+		rf2.Rules[where[0]].Ops[where[1]] = pick(t, []string{"@pm", "@pmFromFile", "@contains"}, "otherop")
+		renderRuleFile(rf2, ropts, "# rules\n\n", nil)
+		w.Put(rulesPath, rf2.Content)
+		p.Argv = argv(victim)
+		p.CtlArgv = p.Argv
+		p.TgtLine = secRuleLine[victim]
 	case class == "two-rules-files":
 		w.Put("crs/rules/REQUEST-942-APPLICATION-ATTACK-SQLI-B.conf", rf.Content)
 		victim = targets[0]
@@ -600,7 +616,7 @@ func safeIdx(a []string, i int) string {
 func init() {
 	register(&Property{
 		ID: "C16", Level: "fault_enumeration",
-		Rule: "cells = {fault class} x {position: top level, in a block, in an included file; first / middle / last file of an --all run} x {command for which the fault makes the request impossible}, written down once from the statement (missing include, unparsable entry, unknown processor, unknown cmdline type, missing / stray ##!<, unknown stored name, missing identifier, unsupported flag, flags line in an include, odd replacement list; rule id / chain offset / rules file absent, two rules files for the prefix; malformed RULE_ID, absent target file; invalid / missing version; second tier, injected through the I/O seam: EROFS before the first byte or ENOSPC after a prefix on the write of the target; EACCES on open / EIO on read of a file the command needs - assembly file, include file, rules file, test file, .conf / .example file). Every cell is enumerated in every run and instantiated on seeded valid worlds (3 rules, chain, 4 assembly files, includes); each instance first runs the command fault-free on the twin world (control), then with the fault, under a seeded schedule. Oracle: exit != 0; generate prints nothing; the failing item's target (file, or rule line for update --all) and, for single-target invocations, the whole tree are byte-identical; format on unsupported flag / stray end marker may alternatively complete with white-space-only changes; write faults: exit != 0 only. Non-trivial = control succeeded and the fault was reached; distinct = distinct cells x worlds.",
+		Rule: "cells = {fault class} x {position: top level, in a block, in an included file; first / middle / last file of an --all run} x {command for which the fault makes the request impossible}, written down once from the statement (missing include / exclude file, named relatively or by an absolute path, unparsable entry, unknown processor, unknown cmdline type, missing / stray ##!<, unknown stored name, missing identifier, unsupported flag, flags line in an include, odd replacement list; rule id / chain offset / rules file absent, two rules files for the prefix, the addressed rule carries another operator than @rx; malformed RULE_ID, absent target file; invalid / missing version; second tier, injected through the I/O seam: EROFS before the first byte or ENOSPC after a prefix on the write of the target; EACCES on open / EIO on read of a file the command needs - assembly file, include file, rules file, test file, .conf / .example file). Every cell is enumerated in every run and instantiated on seeded valid worlds (3 rules, chain, 4 assembly files, includes); each instance first runs the command fault-free on the twin world (control), then with the fault, under a seeded schedule. Oracle: exit != 0; generate prints nothing; the failing item's target (file, or rule line for update --all) and, for single-target invocations, the whole tree are byte-identical; format on unsupported flag / stray end marker may alternatively complete with white-space-only changes; write faults: exit != 0 only. Non-trivial = control succeeded and the fault was reached; distinct = distinct cells x worlds.",
 		Gen:  genC16, Eval: evalC16,
 		Cells: c16Cells,
 		ChecksPerCell: func(tier string) int {
